@@ -605,6 +605,7 @@ class Session:
         pending = dict(pending)
         queue = [dict(m) for m in model_events]
         guard = 0
+        nleave = 0
         while queue:
             guard += 1
             if guard > 80:
@@ -625,20 +626,42 @@ class Session:
                 # follow-ups the real code performs inside the same run: the handler's cleanup runs at once
                 # (the slot is freed at once; the QuitGame on the agent's behalf queues behind messages already
                 # forwarded - so both placements are tried by the caller)
-                # `front`: True = at once, False = behind everything queued, a number k = behind the next k queued events
-                pos = 0 if front is True else (len(queue) if front is False else min(int(front), len(queue)))
-                if o["k"] == "lost":
+                # `front`: True = at once, False = behind everything queued, a number k = behind the next k queued events,
+                # a tuple = one such placement for each departure produced during this run, in the order they are produced
+                if o["k"] == "lost" or (o["k"] == "reply" and o["c"] in pending):
+                    fr = front
+                    if isinstance(front, tuple):
+                        fr = front[min(nleave, len(front) - 1)]
+                    pos = 0 if fr is True else (len(queue) if fr is False else min(int(fr), len(queue)))
                     queue.insert(pos, {"t": "leave", "c": o["c"], "o": None})
-                elif o["k"] == "reply" and o["c"] in pending:
-                    queue.insert(pos, {"t": "leave", "c": o["c"], "o": None})
-                    del pending[o["c"]]
+                    nleave += 1
+                    if o["k"] == "reply":
+                        del pending[o["c"]]
+        self._last_nleave = nleave
         return outs, ms, pending
 
     WORLD_FOCUS = (None, "C02", "C03", "C11", "C12")
 
     def do(self, ev):
         pre = self._world_pre(ev) if (self.focus in self.WORLD_FOCUS and not self.broken) else None
+        wb = None
+        if self.focus in (None, "C09", "C02") and ev.get("t") == "msg" and ev["m"].get("k") in ("game", "bad") and self.coord._ip_to_hostname:
+            try:
+                wb = C.canon_worlddyn(C.worlddyn2j(self.coord))
+            except Exception:
+                wb = None
         self.do_burst([ev], [0])
+        if wb is not None and self.last_real_outs is not None:
+            rep = [o for o in self.last_real_outs if o["k"] == "reply" and o["c"] == ev["c"]]
+            if len(rep) == 1 and rep[0].get("code") == "BAD_REQUEST" and len(self.last_real_outs) == 1:
+                try:
+                    wa = C.canon_worlddyn(C.worlddyn2j(self.coord))
+                except Exception:
+                    wa = wb
+                self.stats["refused_world_checks"] = self.stats.get("refused_world_checks", 0) + 1
+                if wa != wb:
+                    self.fail({"C09", "C02"}, "refused-but-world-changed:" + ",".join(C.diff_canon(wa, wb)), f"a message of connection {ev['c']} was answered BAD_REQUEST, yet the world tables "
+                              f"{C.diff_canon(wa, wb)} changed while it was handled", self.replay())
         if pre is not None:
             self._world_post(ev, pre)
 
@@ -745,11 +768,27 @@ class Session:
         if len(orders) > 1:
             self.drv.ask({"op": "snapshot"})
         prev_state = self.model_state
-        for oi, (order, front) in enumerate(orders):
+        max_nleave = 0
+        mixed_tried = False
+        oi = -1
+        while True:
+            oi += 1
+            if oi >= len(orders):
+                if max_nleave >= 2 and not mixed_tried and len(groups) > 1:
+                    # several departures produced inside this burst: each may be processed at its own place
+                    mixed_tried = True
+                    places = [True] + list(range(1, len(groups))) + [False]
+                    orders += [(o, (a, b)) for a in places for b in places if a is not b for o in base_orders]
+                    if oi >= len(orders):
+                        break
+                else:
+                    break
+            order, front = orders[oi]
             if oi > 0:
                 self.drv.ask({"op": "restore"})
             mes = [m for gi in order for m in groups[gi]]
             outs, ms, pend = self._run_model(mes, self.pending_leave, front)
+            max_nleave = max(max_nleave, getattr(self, "_last_nleave", 0))
             if ms is None:
                 ms = prev_state
             diffs = self.diff(applied[0] if len(applied) == 1 else {"t": "burst", "c": applied[0]["c"]}, real_outs, outs, ms)
@@ -1395,7 +1434,8 @@ def directed_sessions(drv, rng, defender_tables, on_fail, stats, n):
     for i in range(n):
         cfg = gen_config(rng)
         dotted[0] = rng.random() < 0.5
-        cfg["env"].update({"required_players": 2, "use_dynamic_addresses": rng.random() < 0.4, "use_firewall": True, "use_global_defender": False})
+        # the combinations that matter are walked through systematically (addresses static / re-labelled x who changes the world x what is blocked)
+        cfg["env"].update({"required_players": 2, "use_dynamic_addresses": i % 2 == 1, "use_firewall": True, "use_global_defender": False})
         if dotted[0] and rng.random() < 0.7:
             cfg["env"]["save_trajectories"] = True
         cfg["coordinator"]["agents"]["Attacker"]["start_position"]["controlled_hosts"] = ["213.47.23.195", "192.168.2.2", "192.168.1.2"]      # the last one holds data of the scenario
@@ -1411,13 +1451,13 @@ def directed_sessions(drv, rng, defender_tables, on_fail, stats, n):
         try:
             if sess.sim.startup_error is not None or sess.sim.server_cb is None:
                 continue
-            modifier_role = rng.choice(["Defender", "Attacker"])
+            modifier_role = ["Defender", "Attacker"][(i // 2) % 2]
             idle_role = rng.choice(["Attacker", "Defender"])
             order = rng.choice(["leave-then-reset", "reset-then-leave"])
             how = rng.choice(["quit", "eof", "readerr"])
             evs = [{"t": "connect", "c": 0}, ev_join(0, modifier_role), {"t": "connect", "c": 1}, ev_join(1, idle_role)]
             if modifier_role == "Defender":
-                evs.append(ev_game(sess, 0, Action(ActionType.BlockIP, {"source_host": ip("192.168.1.2"), "target_host": ip("192.168.1.2"), "blocked_host": ip(rng.choice(["192.168.2.2", "192.168.1.3", "8.8.8.8", "10.9.9.9"]))})))
+                evs.append(ev_game(sess, 0, Action(ActionType.BlockIP, {"source_host": ip("192.168.1.2"), "target_host": ip("192.168.1.2"), "blocked_host": ip(["192.168.1.3", "8.8.8.8", "192.168.1.4", "192.168.2.2", "192.168.1.3", "10.9.9.9"][(i // 4) % 6])})))
             else:
                 net = Network("192.168.1.0", 24)
                 evs += [ev_game(sess, 0, Action(ActionType.ScanNetwork, {"source_host": ip("192.168.2.2"), "target_network": net})),
@@ -2200,7 +2240,18 @@ def directed_long_episode(drv, rng, defender_tables, on_fail, stats, n):
             sess.do({"t": "connect", "c": 0})
             sess.do({"t": "msg", "c": 0, "m": {"k": "join", "name": "agent0", "role": "Attacker"}, "raw_bytes": J(ActionType.JoinGame, agent_info=AgentInfo("agent0", "Attacker"))})
             sc = Script(sess, rng, {"bad": 0.0, "leave": 0.0, "burst": 0.0, "reuse": 0.0, "early_reset": 0.0, "extra_connect": 0.0})
-            for _ in range(rng.choice([65, 80])):
+            # first grow the view (every network scanned, services of a dozen hosts), so that every recorded state is large
+            v0 = sess.coord._agent_states.get(PEER(0))
+            grow = [Action(ActionType.ScanNetwork, {"source_host": IP("192.168.2.2"), "target_network": nn}) for nn in sorted(v0.known_networks, key=str)] if v0 is not None else []
+            for a in grow:
+                if not sess.broken:
+                    sess.do({"t": "msg", "c": 0, "m": {"k": "game", "act": sess.akey(a)}, "raw_bytes": a.to_json().encode(), "roll": 0.9})
+            v0 = sess.coord._agent_states.get(PEER(0))
+            for h in (sorted(v0.known_hosts, key=str)[:12] if v0 is not None else []):
+                a = Action(ActionType.FindServices, {"source_host": IP("192.168.2.2"), "target_host": h})
+                if not sess.broken:
+                    sess.do({"t": "msg", "c": 0, "m": {"k": "game", "act": sess.akey(a)}, "raw_bytes": a.to_json().encode(), "roll": 0.9})
+            for _ in range(rng.choice([65, 75])):
                 if sess.broken or sess.coord._episode_ends.get(PEER(0)):
                     break
                 a = sc.game_action(0)
@@ -2230,12 +2281,15 @@ def twin_sessions(drv, rng, defender_tables, on_fail, stats, n, n_events=40):
         if rng.random() < 0.7:
             cfg["env"]["scenario"] = "scenario1"
             cfg["coordinator"]["agents"]["Attacker"]["start_position"]["controlled_hosts"] = rng.choice([["random"], ["213.47.23.195", "random"]])
+        if "213.47.23.195" in cfg["coordinator"]["agents"]["Attacker"]["start_position"]["controlled_hosts"]:
+            # something known on a controlled host: messages the decoder accepts but the world cannot process can then reach the world
+            cfg["coordinator"]["agents"]["Attacker"]["start_position"]["known_data"] = {"213.47.23.195": [["User1", "StartData"]]}
         sess = Session(drv, rng, cfg, defender_tables, on_fail, stats, f"twin#{i}")
         per_event = []
         try:
             if sess.sim.startup_error is not None or sess.sim.server_cb is None:
                 continue
-            sc = Script(sess, rng, {"bad": 0.2, "out_of_order": 0.3, "leave": 0.03, "burst": 0.0, "early_reset": 0.06})
+            sc = Script(sess, rng, {"bad": 0.2, "out_of_order": 0.3, "leave": 0.03, "burst": 0.0, "early_reset": 0.06, "unprocessable": 0.2})
             for _ in range(n_events):
                 if sess.broken:
                     break
